@@ -271,6 +271,13 @@ Fixpoint c10_drop_seps (s : str) : str :=
   end.
 Definition c10_py_bad_name (s : str) : bool := match c10_drop_seps s with [] => true | c :: _ => is_adigit c end.
 
+(* a declared name that starts with a digit is not an identifier in any of the six languages: a field renamed to a
+   key like "1st" (TypeScript, Kotlin, Swift, Scala print the renamed key, dashes replaced), a Rust field `_1x` (Go
+   prints its PascalCase, which drops the underscores) *)
+Definition c10_digit_first (s : str) : bool := match s with c :: _ => is_adigit c | [] => false end.
+Fixpoint c10_drop_us (s : str) : str := match s with c :: r => if c =? ch_us then c10_drop_us r else s | [] => [] end.
+Definition c10_go_bad_name (s : str) : bool := match c10_drop_us s with [] => true | c :: _ => is_adigit c end.
+
 (* the type applies type arguments to one of the given names, at any depth *)
 Fixpoint c10_mentions_applied (names : list str) (t : rtype) : bool :=
   match t with
@@ -287,10 +294,12 @@ Definition known_C10 (l : c10_lang) (package : str) (pd : parsed) : list string 
     (* `x: T = _` for serde(default) on a non-Option field: not valid in a parameter list *)
     c10_cls10 (existsb (fun f => has_default f && negb (c10_is_option (fty f))) (c10_all_fields pd)) "C10-scala-default" ++
     (* a package name without a dot: no `package x {` opener, but the closing brace is printed *)
-    c10_cls10 (negb (contains_char 46 package) && c10_has_items pd) "C10-scala-package-brace"
+    c10_cls10 (negb (contains_char 46 package) && c10_has_items pd) "C10-scala-package-brace" ++
+    c10_cls10 (existsb (fun f => c10_digit_first (renamed (fid f))) (c10_all_fields pd)) "C10-digit-name"
   | CSW =>
     (* a property named inout / var / let: back-ticked where it is declared, raw as the init label *)
-    c10_cls10 (existsb (fun f => mem_str (renamed (fid f)) c10_swift_label_keywords) (c10_all_fields pd)) "C10-swift-label"
+    c10_cls10 (existsb (fun f => mem_str (renamed (fid f)) c10_swift_label_keywords) (c10_all_fields pd)) "C10-swift-label" ++
+    c10_cls10 (existsb (fun f => c10_digit_first (renamed (fid f))) (c10_all_fields pd)) "C10-digit-name"
   | CPY =>
     (* `Name[T] = List[T]`: a subscript assignment to an undefined name, fails when the module is imported *)
     c10_cls10 (existsb (fun a => match agenerics a with [] => false | _ => true end) (p_aliases pd)) "C10-python-generic-alias" ++
@@ -311,7 +320,14 @@ Definition known_C10 (l : c10_lang) (package : str) (pd : parsed) : list string 
                              | EAlgebraic _ _ sh => match evariants sh with [] => true | _ => false end
                              | EUnit _ => false
                              end) (p_enums pd)) "C10-python-empty-union"
-  | CTS | CKT | CGO => []
+  | CTS =>
+    (* a property named after a key that starts with a digit and has no dash (with a dash it is quoted) *)
+    c10_cls10 (existsb (fun f => c10_digit_first (renamed (fid f)) && negb (contains_char ch_dash (renamed (fid f)))) (c10_all_fields pd)) "C10-digit-name"
+  | CKT =>
+    c10_cls10 (existsb (fun f => c10_digit_first (renamed (fid f))) (c10_all_fields pd)) "C10-digit-name"
+  | CGO =>
+    (* the exported field name is the PascalCase of the Rust name: leading underscores are dropped *)
+    c10_cls10 (existsb (fun f => c10_go_bad_name (original (fid f))) (c10_all_fields pd)) "C10-digit-name"
   end.
 
 (* ------------------------------------------------------------------ what the check evaluates *)
